@@ -2,6 +2,7 @@ package p10
 
 import (
 	"fmt"
+	"os"
 	"runtime"
 	"sort"
 	"strconv"
@@ -252,13 +253,13 @@ func (s *sim) pickBlockTxs(pSub, pOther int) []int {
 // ---------------------------------------------------------------- transactions
 
 type txOpts struct {
-	nIn, nOut  int
-	conflictP  int // percent chance per input to pick an output some definition already spends
-	rbf        int // 0 final sequences, 1 signalling, 2 mixed
-	fee        int64
-	feeRel     string // "" | "min" | "min-1" | "repl" | "repl-1" | "rate" | "zero"
-	special    string
-	fromOrphan bool
+	nIn, nOut int
+	conflictP int // percent chance per input to pick an output some definition already spends
+	rbf       int // 0 final sequences, 1 signalling, 2 mixed
+	fee       int64
+	feeRel    string // "" | "min" | "min-1" | "repl" | "repl-1" | "rate" | "zero"
+	special   string
+	fromPool  bool // only spend outputs of definitions (not coinbases)
 }
 
 func (s *sim) unspentOuts(allowImmature bool) []gOut {
@@ -313,6 +314,15 @@ func (s *sim) newTx(o txOpts) *txDef {
 		}
 		if len(cand) == 0 {
 			cand = s.unspentOuts(s.r.Chance(5, 100))
+			if o.fromPool {
+				var l []gOut
+				for _, c := range cand {
+					if !c.cb {
+						l = append(l, c)
+					}
+				}
+				cand = l
+			}
 		}
 		if len(cand) == 0 {
 			cand = s.spentOuts()
@@ -578,6 +588,30 @@ func (s *sim) randomOpts() txOpts {
 	return o
 }
 
+// replacementOf: a definition spending exactly the inputs of d with the given fee.
+func (s *sim) replacementOf(d *txDef, fee int64) *txDef {
+	n := &txDef{id: s.nextID, lock: "0", ver: 1}
+	var total int64
+	for _, in := range d.ins {
+		n.ins = append(n.ins, inDef{in.txid, in.idx, 0xffffffff, 'g'})
+		v, _, _ := s.u.outInfo(in.txid, in.idx)
+		total += v
+	}
+	n.outs = []outDef{{value: total - fee, kind: 'p'}}
+	s.u.defs[n.id] = n
+	s.u.build(n)
+	s.seenHash[*n.tx.Hash()] = true
+	n.fee, n.vsize, n.ssize, n.size, n.bits = s.u.facts(n, 2, s.pol.minRelayFee)
+	s.nextID++
+	s.defs = append(s.defs, n)
+	for _, in := range n.ins {
+		k := [2]int{in.txid, in.idx}
+		s.spentBy[k] = append(s.spentBy[k], n.id)
+	}
+	s.outs = append(s.outs, gOut{n.id, 0, total - fee, 'p', false, 0})
+	return n
+}
+
 // scenario produces one history of about n steps.
 func (s *sim) scenario(n int, withBlocks bool) {
 	r := s.r
@@ -719,6 +753,31 @@ func (P) Generate(g0 *core.Gen) {
 		s.ops = append(s.ops, "T")
 		g.Case("chains", n >= 3, s.line())
 	}
+	// replacement limit: a signalling transaction with a chain / fan of descendants, 99..101 in total
+	for _, n := range []int{99, 100, 101} {
+		for shape := 0; shape < g.N(1, 3); shape++ {
+			r := g.R.Fork()
+			pol := policy{acceptNonStd: r.Bool(), maxOrphans: 100, maxOrphanSize: 100000, minRelayFee: 1000,
+				disablePriority: true, freeRelay: true}
+			s := newSim(r, pol, 1)
+			s.baseChain(3)
+			root := s.newTx(txOpts{nIn: 1, nOut: 3, rbf: 1, fee: 1000})
+			s.submit(root)
+			for len(s.defs) < n {
+				d := s.newTx(txOpts{nIn: 1, nOut: 1 + shape, fee: 1000, fromPool: true})
+				if d == nil {
+					break
+				}
+				s.submit(d)
+			}
+			// the replacement spends the root's input
+			rep := s.replacementOf(root, 10000000)
+			s.ops = append(s.ops, fmt.Sprintf("K:%d", rep.id))
+			s.submit(rep)
+			s.ops = append(s.ops, "T")
+			g.Case("rbf-limit", true, s.line())
+		}
+	}
 	for i := 0; i < g.N(250, 4000); i++ {
 		r := g.R.Fork()
 		s := newSim(r, randomPolicy(r), int(r.Pick(1, 2, 2, 3)))
@@ -778,7 +837,17 @@ func (c *collector) flush() {
 	}
 	close(ch)
 	wg.Wait()
+	var dump *os.File
+	if p := os.Getenv("VERIF_C10_DUMP"); p != "" {
+		dump, _ = os.Create(p)
+		defer dump.Close()
+	}
 	for _, cs := range c.cases {
+		if dump != nil {
+			if v, ok := memo.Load(cs.line); ok {
+				fmt.Fprintf(dump, "%s\t%s\t%s\n", cs.class, cs.line, v.(string))
+			}
+		}
 		c.Gen.Case(cs.class, cs.nt, cs.line)
 	}
 }
